@@ -22,33 +22,25 @@ func SuiteMatchesFilters(suite *Suite) SuiteMatch {
 		return SUITE_MATCH_FULL
 	}
 
-	var result SuiteMatch
-
+	// a suite gets discarded when any filter rejects it,
+	// it is matched in full when a filter picks all of its content,
+	// its cases still have to satisfy every filter
+	result := SUITE_MATCH_TRUE
 	for _, filter := range Filters {
-		suiteMatch := filter.SuiteMatches(suite)
-		switch suiteMatch {
+		switch filter.SuiteMatches(suite) {
 		case SUITE_MATCH_FALSE:
-			return suiteMatch
+			return SUITE_MATCH_FALSE
 		case SUITE_MATCH_FULL:
-			if result == SUITE_MATCH_FALSE {
-				result = SUITE_MATCH_FULL
-			}
-		case SUITE_MATCH_TRUE:
-			result = SUITE_MATCH_TRUE
+			result = SUITE_MATCH_FULL
 		}
 	}
 
-	if result == SUITE_MATCH_FALSE {
-		return SUITE_MATCH_TRUE
-	}
 	return result
 }
 
 func CaseMatchesFilters(testCase *Case) bool {
-	if testCase.FullMatch() {
-		return true
-	}
-
+	// every filter has to match, a case in a suite picked
+	// by a path filter still has to satisfy the other filters
 	for _, filter := range Filters {
 		if !filter.CaseMatches(testCase) {
 			return false
@@ -115,7 +107,24 @@ func (p *PathFilter) LocationMatches(loc *position.Location) bool {
 }
 
 func (p *PathFilter) CaseMatches(test *Case) bool {
-	return p.LocationMatches(test.Location())
+	if p.LocationMatches(test.Location()) {
+		return true
+	}
+	if p.line < 0 {
+		return false
+	}
+
+	// the line may point to one of the suites the case has been defined in
+	for parent := range test.Parents() {
+		loc := parent.Location
+		if loc == nil {
+			continue
+		}
+		if p.line == loc.StartPos.Line && doublestar.MatchUnvalidated(p.pattern, loc.FilePath) {
+			return true
+		}
+	}
+	return false
 }
 
 func (p *PathFilter) SuiteMatches(suite *Suite) SuiteMatch {
